@@ -2075,7 +2075,16 @@ public:
     template<class Event>
     struct process_fsm_internal_table
     {
-        typedef typename ::boost::mpl::has_key<processable_events_internal_table,Event>::type is_event_processable;
+        // the internal table can react if one of its rows is triggered by the event's type,
+        // by a base class of it or by a kleene event
+        typedef typename ::boost::mpl::fold<
+            processable_events_internal_table,
+            typename ::boost::mpl::has_key<processable_events_internal_table,Event>::type,
+            ::boost::mpl::or_<
+                ::boost::mpl::placeholders::_1,
+                ::boost::is_base_of< ::boost::mpl::placeholders::_2,Event>,
+                ::boost::msm::is_kleene_event< ::boost::mpl::placeholders::_2> >
+        >::type is_event_processable;
 
         // forward to the correct do_process
         static void process(Event const& evt,library_sm* self_,HandledEnum& result)
